@@ -503,3 +503,42 @@ B('c16i_own_decode_in_middleware', ['C16'], 'R16.a',
 T('c16i_own_decode_guarded', ['C16'],
   _unser('        string = string.strip(\'"\')\n        try:\n            if string.isdigit() and int(string) == 0:\n                return cls((), secret_key, False)\n'
          '            return super(cls, JSONCookie).unserialize(string, secret_key)\n        except Exception:\n            return cls((), secret_key, False)'))
+
+# ---------------------------------------------------------------- the guard against malformed cookies written in the middleware instead
+_UNSER_PLAIN = '        string = string.strip(\'"\')\n        return super(cls, JSONCookie).unserialize(string, secret_key)'
+_LOAD_GUARDED = ("        try:\n            cookie = self._cookie_type.load_cookie(request, key=self.cookie_name, secret_key=self.secret_key)\n"
+                 "        except Exception:\n            cookie = self._cookie_type(None, self.secret_key)\n")
+T('c16i_guard_in_middleware_binds_empty_cookie', ['C16'], _unser(_UNSER_PLAIN), (CK, _LOAD, _LOAD_GUARDED))
+B('c16i_guard_in_middleware_binds_request_data', ['C16'], 'R16.g', _unser(_UNSER_PLAIN),
+  (CK, _LOAD, _LOAD_GUARDED.replace('self._cookie_type(None, self.secret_key)', 'self._cookie_type(dict(request.args), self.secret_key)')))
+B('c16i_guard_in_middleware_without_key', ['C16'], 'R16.g', _unser(_UNSER_PLAIN),
+  (CK, _LOAD, _LOAD_GUARDED.replace('self._cookie_type(None, self.secret_key)', 'self._cookie_type()')))
+
+# ---------------------------------------------------------------- further spellings of the key plumbing / the stamp
+T('c16i_key_size_class_constant', ['C16'],
+  (CK, _CLSATTR, _CLSATTR + '    KEY_BYTES = 20\n'),
+  (CK, '        return os.urandom(20)\n', '        return os.urandom(self.KEY_BYTES)\n'))
+B('c16i_key_size_class_constant_short', ['C16'], 'R16.d',
+  (CK, _CLSATTR, _CLSATTR + '    KEY_BYTES = 8\n'),
+  (CK, '        return os.urandom(20)\n', '        return os.urandom(self.KEY_BYTES)\n'))
+T('c16i_key_hex_encoded', ['C16'],
+  (CK, 'import base64\n', 'import base64\nimport binascii\n'),
+  (CK, '        return os.urandom(20)\n', '        return binascii.hexlify(os.urandom(20))\n'))
+B('c16i_key_hex_encoded_module_constant', ['C16'], 'R16.f',
+  (CK, 'import base64\n', 'import base64\nimport binascii\n'),
+  (CK, _NOW, _NOW + '_FALLBACK_KEY = binascii.hexlify(os.urandom(20))\n'),
+  (CK, '        return os.urandom(20)\n', '        return _FALLBACK_KEY\n'))
+T('c16i_stamp_through_set_expires', ['C16'],
+  (CK, "                cookie['_expires'] = time.time() + self.expiry\n", "                cookie.set_expires(time.time() + self.expiry)\n"))
+
+# ---------------------------------------------------------------- R16.d: the response saved on is the response returned
+_RET = '        cookie.save_cookie(response, **save_cookie_kwargs)\n        return response\n'
+B('c16i_response_rebound_after_save', ['C16'], 'R16.d',
+  (CK, 'from .core import Middleware\n', 'from .core import Middleware\nfrom werkzeug.wrappers import Response\n'),
+  (CK, _RET, '        cookie.save_cookie(response, **save_cookie_kwargs)\n        if response is None:\n            response = Response(status=204)\n        return response\n'))
+B('c16i_response_alias_rebound_before_save', ['C16'], 'R16.d',
+  (CK, 'from .core import Middleware\n', 'from .core import Middleware\nfrom werkzeug.wrappers import Response\n'),
+  (CK, _RET, '        out = response\n        if out.status_code >= 500:\n            out = Response(status=out.status_code)\n'
+             '        cookie.save_cookie(out, **save_cookie_kwargs)\n        return response\n'))
+T('c16i_response_alias_saved_and_returned', ['C16'],
+  (CK, _RET, '        out = response\n        cookie.save_cookie(out, **save_cookie_kwargs)\n        return out\n'))
